@@ -617,7 +617,12 @@ pub fn run_c16(ctx: &Ctx) -> (&'static str, Map<String, Value>) {
         }
     }
     // exhaustion histories: the key handed over after the last leaf contains no seed bytes (Engine A oracle)
-    let cfgs = crate::props_life::c05_life_cfgs(ctx).into_iter().filter(|c| c.max_steps.is_none() && c.start == 0).take(if ctx.tier.thorough() { 40 } else { 14 }).collect::<Vec<_>>();
+    // whole lifetimes of at most 256 signatures: only the transition that consumes the last leaf matters here
+    let cfgs = crate::props_life::c05_life_cfgs(ctx)
+        .into_iter()
+        .filter(|c| c.max_steps.is_none() && c.start == 0 && Model::new(c.hid).heights(&c.params).iter().sum::<u32>() <= 8)
+        .take(if ctx.tier.thorough() { 40 } else { 14 })
+        .collect::<Vec<_>>();
     let (agg, labels) = crate::props_life::run_lattice(ctx, cfgs);
     // exhaustion of shapes that cannot be walked: the successor of the last leaf through the real
     // increment/wipe path (hook H-b) must not contain seed bytes, for every height tuple
